@@ -13,10 +13,13 @@ open Carapace Carapace.Model Carapace.Spec.Pflag
 structure PFlagG extends PFlag where
   delim : Char := '='
   nargs : Int := 0
+  /-- the shorthand as a text (a word in non-POSIX flag sets) and the flag's mode (Model/ForkG.lean) -/
+  shortW : Str := []
+  mode : Nat := 0
   deriving DecidableEq, Repr, Inhabited
 
 def PFlagG.toDefG (f : PFlagG) : FlagDefG :=
-  { f.toPFlag.toDef with delim := f.delim, nargs := f.nargs }
+  { f.toPFlag.toDef with delim := f.delim, nargs := f.nargs, shortW := f.shortW, mode := f.mode }
 
 abbrev PFlagsG := List PFlagG
 
@@ -26,6 +29,19 @@ def findShortG (fs : PFlagsG) (c : Char) : Option PFlagG := fs.find? (fun f => f
     (the real function walks a map: the answer is determined when no name contains a delimiter) -/
 def findLongG (fs : PFlagsG) (body : Str) : Option PFlagG :=
   fs.find? (fun f => (Str.cutChar f.delim body).1 == f.name)
+
+/-- `FlagSet.IsPosix` (the same predicate as `isPosixG`) -/
+def isPosixP (fs : PFlagsG) : Bool :=
+  fs.all (fun f => decide (f.shortW.length ≤ 1) && (f.mode != 2 || f.shortW.isEmpty || decide (f.name.length ≤ 1)))
+
+/-- the shorthand keys a flag is registered under: its shorthand, and its name when it is NameAsShorthand -/
+def PFlagG.shortKeys (f : PFlagG) : List Str :=
+  if f.shortW.isEmpty then [] else if f.mode == 2 then [f.shortW, f.name] else [f.shortW]
+
+/-- `findShortFlag` (non-POSIX): a flag one of whose shorthand keys is the text in front of the first
+    occurrence of its own delimiter (the real function walks a map: determined when no key contains a delimiter) -/
+def findShortWordG (fs : PFlagsG) (word : Str) : Option PFlagG :=
+  fs.find? (fun f => f.shortKeys.any (fun k => (Str.cutChar f.delim word).1 == k))
 
 /-- `parseNargs`: how many of the following words (at least one is there) the flag takes -/
 def takeNargs (nargs : Int) (rest : List Str) : Nat :=
@@ -65,6 +81,9 @@ def parseLongG (fs : PFlagsG) (wl : Bool) (body : Str) (rest : List Str) : Excep
       else if wl then .ok (none, if body.elem '=' then 0 else stripUnknown rest)
       else .error .unknownLong
     | some f =>
+      -- a ShorthandOnly flag in its long form is dropped like a tolerated unknown flag, with the next word
+      -- unless a value is attached
+      if f.mode == 1 then .ok (none, if (Str.cutChar f.delim body).2.isSome then 0 else stripUnknown rest) else
       match (Str.cutChar f.delim body).2 with
       | some v => if valueOkG f v then .ok (some (f.name, v), 0) else .error .badValue
       | none =>
@@ -112,6 +131,26 @@ def parseShortG (fs : PFlagsG) (wl : Bool) : Str → List Str → Except Err (Li
               let v := nargsValue f.nargs rest
               if valueOkG f v then .ok ([(f.name, v)], takeNargs f.nargs rest) else .error .badValue
 
+/-- `parseSingleShortArg` in a non-POSIX flag set: the whole text after `-` is one shorthand, possibly with
+    a value attached by the flag's delimiter (only when the text is longer than two characters) -/
+def parseNonPosixShortG (fs : PFlagsG) (wl : Bool) (word : Str) (rest : List Str) : Except Err (List (Str × Str) × Nat) :=
+  match findShortWordG fs word with
+  | none =>
+    if word == ['h'] then .error .help
+    else if wl then .ok ([], stripUnknown rest)
+    else .error .unknownShort
+  | some f =>
+    if decide (word.length > 2) && word.elem f.delim then
+      let v := ((Str.cutChar f.delim word).2).getD []
+      if valueOkG f v then .ok ([(f.name, v)], 0) else .error .badValue
+    else match f.noOptDefVal with
+      | some dv => .ok ([(f.name, dv)], 0)
+      | none =>
+        if rest.isEmpty then .error .needsArg
+        else
+          let v := nargsValue f.nargs rest
+          if valueOkG f v then .ok ([(f.name, v)], takeNargs f.nargs rest) else .error .badValue
+
 /-- `parseArgs`; `skip` = how many words at the head were taken by the flag before them -/
 def parseArgsG (fs : PFlagsG) (wl interspersed : Bool) : List Str → Nat → Parsed → Except Err Parsed
   | [], _, p => .ok p
@@ -124,7 +163,7 @@ def parseArgsG (fs : PFlagsG) (wl interspersed : Bool) : List Str → Nat → Pa
       | .error e => .error e
       | .ok (a, took) => parseArgsG fs wl interspersed rest took { p with sets := p.sets ++ a.toList }
     | .short cs =>
-      match parseShortG fs wl cs rest with
+      match (if isPosixP fs then parseShortG fs wl cs rest else parseNonPosixShortG fs wl cs rest) with
       | .error e => .error e
       | .ok (as, took) => parseArgsG fs wl interspersed rest took { p with sets := p.sets ++ as }
     | .pos =>
